@@ -57,6 +57,7 @@ fn main() {
         }
         Some("worker") => driver::worker_main(&args[1..]),
         Some("exec-plan") => driver::exec_plan_main(&args[1]),
+        Some("commit-hashes") => driver::commit_hashes_main(&args[1]),
         Some("replay") => driver::replay_main(&args[1]),
         Some("gen") => {
             // gen <prop> <tier> <i>: print the plan of run i
